@@ -159,8 +159,18 @@ func runC31(c *an.Ctx) {
 		}}
 		cm := c.P.Field(vb + ".CandidateInfo.CommitMsgs")
 		v := an.Guarded(c.P, nb, []*an.Guard{dup}, func(in ssa.Instruction) bool {
+			// the store that records a message: the field receives the result of append (the candidate record's
+			// initialisation in getCandidateInfoLocked stores a fresh empty list and is not a recording)
 			st, ok := in.(*ssa.Store)
-			return ok && an.FieldOf(st.Addr) == cm
+			if !ok || an.FieldOf(st.Addr) != cm {
+				return false
+			}
+			k, isCall := st.Val.(*ssa.Call)
+			if !isCall {
+				return false
+			}
+			b, isB := k.Call.Value.(*ssa.Builtin)
+			return isB && b.Name() == "append"
 		}, true)
 		c.Check(v.GuardSites == 1 && v.ActionSites == 1, "shape|newBlockCommitment|dup-check", "a commit message is recorded after the one-committer-one-commit scan", c.P.Rel(nb.Pos()), fmt.Sprintf("dup tests %d, append sites %d", v.GuardSites, v.ActionSites))
 		// the scan precedes the append: with the comparison true the append is unreachable in that iteration
